@@ -1,14 +1,55 @@
+import os, re
 from checks.generic import standard
 
+# classes of Model/SessionObs.v `viol_class`: the conclusion of a soundness theorem evaluated on the observed
+# output of the first deviating step of a mismatching history
+VIOL = {
+    1: ("unjustified-factor", "the emitted cookie carries a factor that was not verified for the cookie's own user during that session (c05_inv)"),
+    2: ("spent-value", "a one-time value that had been accepted before was accepted again (c05_onetime)"),
+    3: ("expired-value", "a value past its (original) expiry was accepted (c05_expired, c05_value_fixed)"),
+}
+
+def violating(ctx, res):
+    """round-2 addendum: mismatching histories on which the OBSERVATION violates the property become oracle
+       hits with the history as the failing input"""
+    pairs = re.findall(r"\(\s*(\d+)(?:%nat)?\s*,\s*(\d+)(?:%nat)?\s*\)", res.get("c05_violating", "") or "")
+    if not pairs:
+        return
+    idx = os.path.join(ctx.work, "CasesC05.idx")
+    lines = open(idx).read().split("\n") if os.path.exists(idx) else []
+    seen = {}
+    for i, c in pairs:
+        i, c = int(i), int(c)
+        name, what = VIOL.get(c, ("class-%d" % c, "property predicate violated"))
+        if seen.get(name, 0) >= 3:
+            continue
+        seen[name] = seen.get(name, 0) + 1
+        ctx.hits.append({"key": "C05:model-oracle:" + name, "oracle": "Model.SessionObs.violation (the property's predicate on the observed outputs, model as reference)",
+                         "what": what, "case": lines[i] if i < len(lines) else "case %d" % i})
+
 def run(ctx):
+    # evaluate c05_violating right after the case file was compiled (generic.standard has no hook for it)
+    eval_cases = ctx.eval_cases
+    def eval_and_classify(*a, **kw):
+        res = eval_cases(*a, **kw)
+        if res is not None:
+            violating(ctx, res)
+        return res
+    ctx.eval_cases = eval_and_classify
     return standard(ctx,
         props=[("Props.C05", ["c05_inv", "c05_no_cross_user", "c05_onetime", "c05_expired",
+                              "c05_fresh_values", "c05_value_fixed",
+                              "c05_cached_no_write", "c05_cached_no_cross_user", "c05_cached_expired", "c05_old_cached_totp_refuted",
+                              "c05_profile_exact", "c05_profile_save", "c05_profile_order", "c05_profile_users", "c05_like_lookup_refuted",
                               "c05_old_poll_refuted", "c05_old_totp_replay_refuted", "c05_old_challenge_refuted", "c05_old_cert_cookie_refuted",
                               "c05_cookie_expired", "c05_first_cookie_refuted", "c05_old_vip_expiry_refuted"])],
         harness=("TestVerif_C05", ["kmd/common.go", "kmd/creds.go", "kmd/consts.go", "kmd/c05.go"]),
-        cases=("CasesC05.v", [("c05_mismatches", "per-step (success, subject, level, iat, exp) of every history: real handlers = Model.Session")], "CasesC05.idx"),
+        cases=("CasesC05.v", [("c05_mismatches", "per-step (success, subject, level, iat, exp, id of the one-time value handed out) of every history: real handlers = Model.Session over the profile table of Model.Profiles")], "CasesC05.idx"),
         trusted=["external verifiers are environment: the fake VIP endpoint, the TOTP algorithm (pquerna/otp), ECDSA / the U2F and WebAuthn libraries decide whether a presented value is right; the model carries their answer and whom it is about",
                  "time steps are simulated by moving what the handlers read (LastSuccessfullTOTPCounter, BootstrapOTP.ExpiresAt, localAuthData.ExpiresAt); the per-user TOTP throttle (C14) is cleared before every TOTP attempt",
-                 "what clients hold ages with the simulated clock too: on a time step every issued auth cookie and CLI token is re-signed by the harness with iat/nbf/exp moved back (same claims otherwise, server key)"],
+                 "what clients hold ages with the simulated clock too: on a time step every issued auth cookie and CLI token is re-signed by the harness with iat/nbf/exp moved back (same claims otherwise, server key)",
+                 "the Okta authn API is a fake (state tokens, pass codes, push approval as the harness decides); its cached answers age by moving recentAuth[*].expires through reflect/unsafe",
+                 "a request 'served from the cache' = the cache database refreshed from the primary immediately before, and remoteDBQueryTimeout = 0 for the duration of the request",
+                 "one-time values are identified by content: the harness numbers the distinct challenge / OTP / transaction byte strings in order of first appearance (two different values never collide: 32 random bytes)"],
         assumptions=["signatures are unforgeable: the adversary attaches only cookies / tokens the server issued (by position in the list of everything issued)"],
         timeout=1500)
